@@ -27,11 +27,15 @@ def prefixBytes (seed : Option Int) (key salt : String) : List UInt8 :=
   | none => bytes key ++ [46] ++ bytes salt ++ [46]
 
 /-- How the bucketing value is rendered: a string as itself, an integer-valued number in int64
-range in decimal; anything else is not a bucketing value. -/
-def renderValue : J → Option (List UInt8)
+range in decimal; anything else is not a bucketing value.  An unparsed value (`J.raw`) is rendered
+as the value it parses to (`IsString()` / `StringValue()` / `IsInt()` / `IntValue()` all parse). -/
+def renderValue (v : J) : Option (List UInt8) :=
+  match v.unraw with
   | .str s => some (bytes s)
   | .num q => if ratIsInt q then some (decimal (goInt q)) else none
   | _ => none
+
+theorem renderValue_raw (v : J) : renderValue (.raw v) = renderValue v := by simp [renderValue]
 
 def hashInput (seed : Option Int) (key salt : String) (v : List UInt8)
     (secondary : Option String) : List UInt8 :=
@@ -125,14 +129,15 @@ def specInput (sec : Bool) (ctx : Ctx) (isExp : Bool) (seed : Option Int)
         | none => .ok (.error .attributeWrongType)
         | some bs => .ok (.ok (hashInput seed key salt bs (effectiveSecondary sec isExp sc)))
 
-theorem isNull_false_of (v : J) (h : v = .null → False) : v.isNull = false := by
-  cases v <;> first | rfl | exact absurd rfl h
+theorem isNull_false_of (v : J) (h : v.unraw = .null → False) : v.isNull = false :=
+  (J.isNull_eq_false_iff v).2 h
 
-theorem renderValue_none_of (v : J) (h2 : ∀ s, v = .str s → False) (h3 : ∀ q, v = .num q → False) :
-    renderValue v = none := by
-  cases v with
-  | str s => exact absurd rfl (h2 s)
-  | num q => exact absurd rfl (h3 q)
+theorem renderValue_none_of (v : J) (h2 : ∀ s, v.unraw = .str s → False)
+    (h3 : ∀ q, v.unraw = .num q → False) : renderValue v = none := by
+  unfold renderValue
+  cases hv : v.unraw with
+  | str s => exact absurd hv (h2 s)
+  | num q => exact absurd hv (h3 q)
   | _ => rfl
 
 /-- The buffer-based implementation computes exactly the specification (for the 100-byte initial
@@ -155,15 +160,14 @@ theorem bucketInput_refines (sec : Bool) (ctx : Ctx) (isExp : Bool) (seed : Opti
         split at heq
         · rename_i hv
           cases heq
-          rw [hv]; rfl
+          simp only [J.isNull, hv]; rfl
         · cases heq
         · rename_i q hv
           split at heq
           · cases heq
           · rename_i hq
             cases heq
-            rw [hv]
-            simp [J.isNull, renderValue, hq, Except.map]
+            simp [J.isNull, renderValue, hv, hq, Except.map]
         · rename_i x h1 h2 h3
           cases heq
           rw [isNull_false_of _ h1, renderValue_none_of _ h2 h3]
@@ -173,17 +177,15 @@ theorem bucketInput_refines (sec : Bool) (ctx : Ctx) (isExp : Bool) (seed : Opti
         · cases heq
         · rename_i s hv
           cases heq
-          rw [hv]
           cases hs : (sec && !isExp) <;> cases hsec : sc.secondary <;>
-            simp [renderValue, J.isNull, hashInput, effectiveSecondary, hs, hsec, Except.map, prefix_data,
+            simp [renderValue, J.isNull, hv, hashInput, effectiveSecondary, hs, hsec, Except.map, prefix_data,
               LocalBuffer.appendByte_data, LocalBuffer.appendString_data, bytes]
         · rename_i q hv
           split at heq
           · rename_i hq
             cases heq
-            rw [hv]
             cases hs : (sec && !isExp) <;> cases hsec : sc.secondary <;>
-              simp [renderValue, J.isNull, hashInput, effectiveSecondary, hs, hsec, hq, Except.map,
+              simp [renderValue, J.isNull, hv, hashInput, effectiveSecondary, hs, hsec, hq, Except.map,
                 prefix_data, LocalBuffer.appendByte_data, LocalBuffer.appendString_data,
                 LocalBuffer.appendInt_data, bytes]
           · cases heq
@@ -246,7 +248,7 @@ theorem specInput_ok_iff (sec : Bool) (ctx : Ctx) (isExp : Bool) (seed : Option 
     have hn : (sc.valueForRef (effectiveRef isExp attr)).isNull = false := by
       apply isNull_false_of
       intro e
-      rw [e] at hr
+      simp only [renderValue, e] at hr
       cases hr
     rw [specInput, if_neg hc, hk]
     simp only [hn, hr, hi]
@@ -390,9 +392,9 @@ theorem zero_cases (sec : Bool) (ctx : Ctx) (isExp : Bool) (seed : Option Int)
     (ck key : String) (attr : Ref) (salt : String) (hok : RefOK isExp attr) :
     (ctx.byKind ck = none →
       computeBucket sec ctx isExp seed ck key attr salt = .ok (0, .contextLacksKind)) ∧
-    (∀ sc, ctx.byKind ck = some sc → sc.valueForRef (effectiveRef isExp attr) = .null →
+    (∀ sc, ctx.byKind ck = some sc → (sc.valueForRef (effectiveRef isExp attr)).unraw = .null →
       computeBucket sec ctx isExp seed ck key attr salt = .ok (0, .attributeNotFound)) ∧
-    (∀ sc, ctx.byKind ck = some sc → sc.valueForRef (effectiveRef isExp attr) ≠ .null →
+    (∀ sc, ctx.byKind ck = some sc → (sc.valueForRef (effectiveRef isExp attr)).unraw ≠ .null →
       renderValue (sc.valueForRef (effectiveRef isExp attr)) = none →
       computeBucket sec ctx isExp seed ck key attr salt = .ok (0, .attributeWrongType)) := by
   have hc := (refOK_iff isExp attr).mp hok
@@ -401,7 +403,7 @@ theorem zero_cases (sec : Bool) (ctx : Ctx) (isExp : Bool) (seed : Option Int)
     rw [computeBucket_eq_spec, specBucket, specInput, if_neg hc, hk]
   · intro sc hk hv
     rw [computeBucket_eq_spec, specBucket, specInput, if_neg hc, hk]
-    simp [hv, J.isNull]
+    simp [(J.isNull_iff _).2 hv]
   · intro sc hk hv hr
     have hn : (sc.valueForRef (effectiveRef isExp attr)).isNull = false :=
       isNull_false_of _ (fun e => hv e)
@@ -411,11 +413,12 @@ theorem zero_cases (sec : Bool) (ctx : Ctx) (isExp : Bool) (seed : Option Int)
 /-- The values that are not bucketable: everything but strings and integer-valued numbers in the
 int64 range. -/
 theorem renderValue_none_iff (v : J) :
-    renderValue v = none ↔ (∀ s, v ≠ .str s) ∧ (∀ q, v = .num q → ratIsInt q = false) := by
-  cases v with
-  | str s => simp [renderValue]
-  | num q => cases hq : ratIsInt q <;> simp [renderValue, hq]
-  | _ => simp [renderValue]
+    renderValue v = none ↔ (∀ s, v.unraw ≠ .str s) ∧ (∀ q, v.unraw = .num q → ratIsInt q = false) := by
+  unfold renderValue
+  cases v.unraw with
+  | str s => simp
+  | num q => cases hq : ratIsInt q <;> simp [hq]
+  | _ => simp
 
 /-! ### 5. Invalid bucket-by reference -/
 
@@ -551,6 +554,27 @@ example : computeBucket false userAttrs false none "" "hashKey" (Ref.newRef "str
     = .ok ((35895 : Rat) / 65536, .none) :=
   eq_ok_of_toOption (by decide +kernel)
 example : |(35895 : Rat) / 65536 - 0.54771423| < 1 / 100000000 := by norm_num [abs_lt]
+
+/-- An unparsed (raw) bucket-by attribute is bucketed by the value it parses to: the bucket for
+`raw (str s)` is the bucket for `str s` (and likewise for an integer), for every `s`. -/
+def userWith (v : J) : Ctx := .single { kind := "user", key := "userKey", attrs := [("a", v)] }
+
+example (s : String) :
+    computeBucket false (userWith (.raw (.str s))) false none "" "hashKey" (Ref.newRef "a") "saltyA" =
+      computeBucket false (userWith (.str s)) false none "" "hashKey" (Ref.newRef "a") "saltyA" := rfl
+example (q : Rat) :
+    computeBucket false (userWith (.raw (.num q))) false none "" "hashKey" (Ref.newRef "a") "saltyA" =
+      computeBucket false (userWith (.num q)) false none "" "hashKey" (Ref.newRef "a") "saltyA" := rfl
+example : computeBucket false (userWith (.raw (.str "33333"))) false none "" "hashKey" (Ref.newRef "a") "saltyA"
+    = .ok ((35895 : Rat) / 65536, .none) :=
+  eq_ok_of_toOption (by decide +kernel)
+/-- … and a raw `null` member is a missing attribute, a raw array a wrong type. -/
+example : computeBucket false (userWith (.obj [("b", .raw .null)])) false none "" "hashKey"
+    (Ref.newRef "/a/b") "saltyA" = .ok (0, .attributeNotFound) :=
+  eq_ok_of_toOption (by decide +kernel)
+example : computeBucket false (userWith (.raw (.arr [.str "x"]))) false none "" "hashKey"
+    (Ref.newRef "a") "saltyA" = .ok (0, .attributeWrongType) :=
+  eq_ok_of_toOption (by decide +kernel)
 
 /-- The secondary key changes the bucket only when the option is on and it is no experiment. -/
 example : computeBucket true userAttrs false none "" "hashKey" (Ref.newRef "intAttr") "saltyA"
